@@ -77,9 +77,10 @@ def run_program_case(case, prop: str, focus_kinds=None):
                 # another property's invariant is violated but this step's own oracle passed: go on
                 labels.append("continued-after-foreign-invariant:" + "+".join(t.props))
                 continue
-            if prop in ("C07", "C13"):
+            if prop == "C13" or (prop == "C07" and t.oracle != "raised"):
                 # the step oracle of another property fired first; the state it left behind is still
-                # subject to this property's invariant
+                # subject to this property's invariant (C13: "at every moment"; C07: "after any successful
+                # public call" - so not after a call that raised)
                 m.invariants_now(prop, dict(t.site, after_foreign=True))
             labels.append(f"foreign-at:{i}")
             if getattr(t, "expected", None) is not None and not t.site.get("r5_trigger") and carried < 4:
